@@ -266,6 +266,34 @@ fn project_shapes() -> Vec<(String, Files, bool)> {
     add("enum-in-function", &[(MAIN, format!("{}start :: fn do\n    E :: enum\n        A,\n    end\nend\n", hdr))]);
     add("external-in-function", &[(MAIN, format!("{}start :: fn do\n    q: int : external\nend\n", hdr))]);
     add("use-in-function", &[(MAIN, format!("{}start :: fn do\n    use a\nend\n", hdr)), ("/p/a.sy", "x :: 1\n".to_string())]);
+    // every import graph over three files (each file imports any subset of {main, a, b}, itself included) x every
+    // subset of the files broken by a syntax error: the loader must terminate on all of them
+    for graph in 0..512u32 {
+        for broken in 0..8u32 {
+            let names = ["main", "a", "b"];
+            let mut m = Files::new();
+            for (fi, n) in names.iter().enumerate() {
+                let mut text = String::new();
+                for (ti, t) in names.iter().enumerate() {
+                    if graph >> (fi * 3 + ti) & 1 == 1 {
+                        text.push_str(&format!("use {}\n", t));
+                    }
+                }
+                if fi == 0 {
+                    text.push_str(hdr);
+                }
+                text.push_str(&format!("v{} :: {}\n", n, fi));
+                if broken >> fi & 1 == 1 {
+                    text.push_str("bad := := 1\n");
+                }
+                if fi == 0 {
+                    text.push_str(start);
+                }
+                m.insert(format!("/p/{}.sy", n), text);
+            }
+            v.push((format!("import-graph {:09b} broken {:03b}", graph, broken), m, true));
+        }
+    }
     for odd in ["/", "", "main.sy", "./main.sy", "/p/../p/main.sy", "/p/", "nodir/main.sy"] {
         let mut m = Files::new();
         m.insert(MAIN.to_string(), format!("{}{}", hdr, start));
